@@ -35,6 +35,15 @@ CLAIMED = {
  "C15": ("bank/store effect census (closed world), provenance of locked/recorded/refunded amounts, commit-path guard analysis, must-pass-through of record deletion, maccPerms AST check",
          "lock = record = Param(CollateralPrice) from the signer when no provider exists; refund = loaded record's amount to the signer, always followed by deleting collateral and provider; nobody else writes collateral records or touches the escrow account; the account is registered; errors propagate. The numeric escrow invariant is not decided.",
          "DESIGN.md §5 C15"),
+ "C04": ("bank-effect classification by counterparty provenance (closed set), dependence signatures of each amount on the ratio parameters, same-base check, same-value check of gauge funding, error-propagation check",
+         "in BuyStorage and the pay-once PostFile branch: the debit depends on the priced message fields, the price parameter and the price feed; every cut is computed from the debit's sources; the gauge is funded with the value it records; POL/referrer/fee-collector amounts depend on their own ratio parameter only; no other recipient; bank errors propagate. Exact prices and rounding are not decided.",
+         "DESIGN.md §5 C04"),
+ "C13": ("same-value analysis of minted/recorded/split base, SSA shape check of the recurrence, sign-guard analysis of the emission, bank instances along call paths with ratio dependence signatures, must-pass-through of the record write, key provenance",
+         "minted = recorded = split base (one SSA value from the recurrence trunc(prev − decrease/blocksPerYear)); emission sign-guarded before the coin constructor; three transfers each depending on their own ratio to {fee collector, dev grants, stipend address}, no other bank call; every path after a successful mint records the emission; previous record read at height−1, written at height. Rounding remainder < 3 is not decided.",
+         "DESIGN.md §5 C13"),
+ "C03": ("field-write summaries + loop analysis (range-while-mutated), exhaustive CFG path enumeration of the per-proof routine with effect classes, commit-path guard analysis with shape-recognised window predicates, bank instances along call paths",
+         "no loop over a file's prover list passes the file to a callee that may rewrite the list; every path of the per-proof routine does exactly one of credit / remove / remove+burn, credit only behind proven or young, burn only behind not-proven and not-young, predicates fed height and the loaded LastProven; the single payout goes to size-tracker keys with an amount depending on tracker entry, total and the pulled coins. Shares within one base unit and Σ paid ≤ released are not decided.",
+         "DESIGN.md §5 C03"),
 }
 NA = {}
 props = [json.loads(l) for l in open('properties.jsonl')]
